@@ -67,3 +67,71 @@ package sync
 //@   requires validParams(s.Params)
 //@   requires !head.IsZero() && 1 <= head.Height() && storeHeightBound <= head.Height() && storeTailH <= head.Height()
 //@   modifies ghost:storeTailH, ghost:storeLow, Parameters.hash
+
+// ---- bifurcation (C15)
+
+//@ func (*Syncer).setLocalHead(s, ctx, netHead)
+//@   props C15
+//@   requires [C15,C03] verified-target: verified(netHead)
+//@   modifies AP_set, AP_val_Hdr, elems(H), EH_Int, headerRange.headers, headerRange.start, ranges.ranges, $now
+
+//@ func (*Syncer).verifyBifurcating(s, ctx, subjHead, newHead)
+//@   props C15
+//@   requires verified(subjHead) && newHead.Height() > subjHead.Height()
+//@   modifies AP_set, AP_val_Hdr, elems(H), EH_Int, headerRange.headers, headerRange.start, ranges.ranges, $now, header.VerifyError.SoftFailure
+//@   ensures [C15] sound: result == nil ==> verified(newHead)
+//@   ensures [C15] refusal-reason: result != nil && asVerr(result) != nil && asVerr(result).SoftFailure ==> cur(subjHeight) + 1 >= newHead.Height()
+//@ loop 0:
+//@   invariant [C15] search: subjHeight == subjHead.Height() && subjHeight < newHead.Height() && diff <= newHead.Height() - subjHeight && verified(subjHead)
+//@   decreases [C15] newHead.Height() - subjHeight, diff
+
+// ---- only verified headers reach the store or the pending ranges (C03)
+// The data-structure invariants "everything in pending / in the store is verified" are assumed on
+// reads (trusted contracts of the accessors below) and established on every write (preconditions of
+// the sinks, proved at each call site).
+
+//@ func (*ranges).Head(rs)
+//@   trusted
+//@   ensures !result.IsZero() ==> verified(result)
+
+//@ func (*ranges).Add(rs, h)
+//@   trusted
+//@   requires [C03] verified-pending: verified(h)
+//@   modifies ranges.ranges, headerRange.headers, headerRange.start, elems(H), EH_Int
+
+//@ func (*syncStore).Head(s, ctx)
+//@   trusted
+//@   modifies AP_set, AP_val_Hdr
+//@   ensures result1 == nil ==> !result0.IsZero() && verified(result0)
+//@   ensures asNonAdj(result1) == nil
+
+//@ func (*Syncer).localHead(s, ctx)
+//@   props C03, C15, C19
+//@   modifies AP_set, AP_val_Hdr
+//@   ensures [C03] verified-head: result1 == nil ==> !result0.IsZero() && verified(result0)
+
+//@ func (*Syncer).verify(s, ctx, newHead)
+//@   props C03, C15
+//@   modifies AP_set, AP_val_Hdr, elems(H), EH_Int, headerRange.headers, headerRange.start, ranges.ranges, $now, header.VerifyError.SoftFailure
+//@   ensures [C03,C15] sound: result == nil ==> verified(newHead)
+
+//@ func (*Syncer).incomingNetworkHead(s, ctx, head)
+//@   props C03, C15
+//@   modifies AP_set, AP_val_Hdr, elems(H), EH_Int, headerRange.headers, headerRange.start, ranges.ranges, $now, header.VerifyError.SoftFailure
+//@   ensures [C03] refused-or-verified: result == nil ==> verified(head)
+
+//@ func (*syncStore).Append(s, ctx, headers)
+//@   props C03
+//@   ghost hd H := result0 of call Head #0
+//@   ghost hderr error := result1 of call Head #0
+//@   requires [C03] verified-store: forall i int :: 0 <= i && i < len(headers) ==> verified(headers[i])
+//@   modifies AP_set, AP_val_Hdr, ghost:storeAppends, errNonAdjacent.Head, errNonAdjacent.Attempted
+//@   ensures [C03] non-adjacent-untouched: asNonAdj(result) != nil ==> storeAppends == old(storeAppends)
+//@   ensures [C03] adjacent: result == nil && len(headers) > 0 && hderr == nil && headers[0].Height() >= hd.Height() ==> forall i int :: 0 <= i && i < len(headers) ==> headers[i].Height() == u64(hd.Height() + 1 + i)
+//@   ensures [C03] at-most-one-inner-append: storeAppends <= old(storeAppends) + 1
+//@ loop 0:
+//@   invariant bounds: -1 <= rangeindex && rangeindex + 1 <= len(headers)
+//@   invariant chain: forall i int :: 0 <= i && i <= rangeindex ==> headers[i].Height() == u64(hd.Height() + 1 + i)
+//@   invariant head: head.Height() == u64(hd.Height() + 1 + rangeindex) && storeAppends == old(storeAppends)
+//@   invariant frame: unchanged("elems(H)")
+//@   decreases len(headers) - rangeindex
